@@ -464,7 +464,7 @@ func convLive(in []LiveEntry) []sup.LiveEntry {
 // runRace: no monitor state; quiescence from the real heartbeat with a long timeout,
 // followed by the API calls a driver makes after completion.
 func runRace(j *sup.Job, res *sup.Result, rr *sup.RunResult, re *process.RuntimeEnvironment, cancel func(), procs []*process.Process) {
-	cap := captureStdout()
+	// stdout is not redirected in race runs: swapping os.Stdout would itself race with printing stragglers
 	t0 := time.Now()
 	if j.Entry == "init" {
 		process.InitializeProcesses(procs, nil, nil, re)
@@ -494,12 +494,6 @@ func runRace(j *sup.Job, res *sup.Result, rr *sup.RunResult, re *process.Runtime
 	_ = re.TimeTaken()
 	rr.Quiescent = true
 	rr.ElapsedUs = time.Since(t0).Microseconds()
-	text := cap.finish()
-	for _, line := range strings.Split(text, "\n") {
-		if strings.HasPrefix(line, "> ") {
-			rr.Stdout = append(rr.Stdout, strings.TrimPrefix(line, "> "))
-		}
-	}
 }
 
 // ---- modes ----
